@@ -105,6 +105,10 @@ NoExtraWithoutPrecision == ~HasPrecision => rngPos <= N
 BestIsInput == Returned => best = 0
 CollectedOnlyDone == \A k \in 1..Len(chance) : chance[k] # None
 Terminates == <>Returned
+\* refinement: the concurrent run implements the atomic, schedule-free GammaAtomic (safety and liveness)
+Atomic == INSTANCE GammaAtomic WITH st <- (IF pc = "return" THEN "returned" ELSE "running"),
+                                    result <- (IF pc = "return" THEN chance ELSE <<>>)
+ImplementsAtomic == Atomic!Spec
 \* always TRUE; used as CONSTRAINT so that TLC prints the job order of every finished run
 EmitC == (Returned /\ EmitSchedules) => PrintT(ToJson([completed |-> completed, extra |-> extra]))
 =============================================================================
